@@ -685,7 +685,7 @@ def run(ctx):
 
 
 MANIFEST_ENTRY = {
-    "technique": "static analysis: traversal completeness of the argument collector (syn, canonical form), abstract evaluation (rules/absint.py) of ParsedValue::merge over value kinds x arguments collected so far (nothing collected from earlier locales is lost), of InterpolationKeys::push_count (count-type conflict table), of Interpolation::make_fields (one required field per collected variable / component) and of the builder setters, the substitution clause of C06.R0 (arguments are collected after foreign-key substitution), MIR who-may-reset checks, rustc compile_fail witnesses with compiling twins (thorough); abstract evaluation of get_keys_inner on values of every kind starting from an empty and a pre-filled signature (push_var / push_comp / push_count as observation points); the forms-kept clause of C05.R3",
+    "technique": "static analysis: traversal completeness of the argument collector (syn, canonical form), abstract evaluation (rules/absint.py) of ParsedValue::merge over value kinds x arguments collected so far (nothing collected from earlier locales is lost), of InterpolationKeys::push_count (count-type conflict table), of Interpolation::make_fields (one required field per collected variable / component) and of the builder setters, the substitution clause of C06.R0 (arguments are collected after foreign-key substitution), MIR who-may-reset checks, rustc compile_fail witnesses with compiling twins (thorough); abstract evaluation of get_keys_inner on values of every kind starting from an empty and a pre-filled signature (push_var / push_comp / push_count as observation points); the forms-kept clause of C05.R3; abstract evaluation of InterpolationKeys::push_var / push_comp (every distinct (variable, formatter) pair kept) and of get_interpol_keys_mut; the reduce_into clause of C01.R3",
     "level_text": "Structural: the set of required arguments is shown to be collected from every kind of value of every locale into one grow-only set, and every member is shown to become a mandatory builder field; the witnesses let rustc itself confirm on one mixed-kind fixture that omissions do not type-check.",
     "level_note": "Trusted: typed-builder's compile-time enforcement. Not decided: trait-bound satisfaction of concrete argument types.",
 }
